@@ -7,7 +7,12 @@ S == UNION {[1..k -> 1..3] : k \in 0..MaxLen}
 \* walpha: the concretisation of the slots (ASCII x, X, y; the non-ASCII case pairs u-umlaut, U-umlaut, zhe;
 \* or case pairs whose lower case has another byte length: U+2C65 / U+023A, k / Kelvin sign)
 Cases == {[aslots |-> a, bslots |-> b, fold |-> f, sep |-> sp, walpha |-> wa] : a \in S, b \in S, f \in BOOLEAN, sp \in 0..1, wa \in {"ascii", "uni", "uni2"}}
+\* slot 4 = xy: a word whose tail is another word (a cut of the common tail of the two texts can fall inside it)
+S4 == UNION {[1..k -> 1..4] : k \in 0..MaxLen}
+Has4(w) == \E k \in 1..Len(w) : w[k] = 4
+TailCases == {[aslots |-> p[1], bslots |-> p[2], fold |-> f, sep |-> 0, walpha |-> "ascii"] :
+                 p \in {q \in S4 \X S4 : Has4(q[1]) \/ Has4(q[2])}, f \in BOOLEAN}
 VARIABLE x
-Init == x = 0 /\ ndJsonSerialize(IOEnv.OUT, SetToSeq(Cases))
+Init == x = 0 /\ ndJsonSerialize(IOEnv.OUT, SetToSeq(Cases) \o SetToSeq(TailCases))
 Next == UNCHANGED x
 =============================================================================
